@@ -30,6 +30,18 @@ pub enum Tokenizer {
 }
 
 impl CountVectorizerValidParams {
+    /// A parameter set that was configured with a tokenizer function loses the function when it is
+    /// deserialized (function pointers cannot be serialized). Fitting it then would silently tokenize
+    /// with the regex instead and learn a different vocabulary, so it is refused until the tokenizer
+    /// is set again with [`CountVectorizerParams::tokenizer`].
+    fn validate_deserialization(&self) -> Result<()> {
+        if self.tokenizer_function().is_none() && self.tokenizer_deserialization_guard {
+            return Err(PreprocessingError::TokenizerNotSet);
+        }
+
+        Ok(())
+    }
+
     /// Learns a vocabulary from the documents in `x`, according to the specified attributes and maps each
     /// vocabulary entry to an integer value, producing a [CountVectorizer](CountVectorizer).
     ///
@@ -42,6 +54,7 @@ impl CountVectorizerValidParams {
         &self,
         x: &ArrayBase<D, Ix1>,
     ) -> Result<CountVectorizer> {
+        self.validate_deserialization()?;
         // word, (integer mapping for word, document frequency for word)
         let mut vocabulary: HashMap<String, (usize, usize)> = HashMap::new();
         for string in x.iter().map(|s| transform_string(s.to_string(), self)) {
@@ -78,6 +91,7 @@ impl CountVectorizerValidParams {
         encoding: EncodingRef,
         trap: DecoderTrap,
     ) -> Result<CountVectorizer> {
+        self.validate_deserialization()?;
         // word, (integer mapping for word, document frequency for word)
         let mut vocabulary: HashMap<String, (usize, usize)> = HashMap::new();
         let documents_count = input.len();
